@@ -62,6 +62,15 @@ CLAIMED["C20"] = ("Theorems C20_* (coq/Properties/C20.v): an operation's own che
                   "column, an existing tag, a bad slice, mismatched chain operands, an unsupported expression or a join predicate "
                   "with a missing column is rejected with the documented class for every option combination; single ill-typing "
                   "edits of random multi-engine programs are replayed on the real library per run.", "DESIGN.md §4 C20")
+CLAIMED["C16"] = ("Theorem C16_diagnostics_correct (coq/Properties/C16.v): for every well-formed tree over truthful leaves the model of "
+                  "Diagnostics.run dooms only empty relations, every doomed verdict has a message, and with a truthful executor "
+                  "the verdict is exact (doomed iff no rows). The model of run() is compared with the real Diagnostics (verdict and "
+                  "message count), with and without a really executing executor, on every run.", "DESIGN.md §4 C16")
+CLAIMED["C19"] = ("Theorem C19_names_distinct (coq/Properties/C19.v): for any number of engines and requests and every interleaving of "
+                  "the micro-steps of get_relation_name (f-string parts and statement order regenerated from _engine.py), the names "
+                  "handed out are pairwise distinct and begin with the requested prefix, given distinct uuid4() values (oracle). "
+                  "Sequential histories are compared character by character with the model; real threads are run per check.",
+                  "DESIGN.md §4 C19")
 NOT_APPLICABLE = {}
 
 
